@@ -2,5 +2,5 @@ package main
 
 func init() {
 	reg("C07", propCfg{Pkg: "./props/c07", Rule: "model-based: probe trace of anko vs reference interpreter",
-		Assumptions: assume("the reference interpreter (internal/prog/model.go) encodes the statement", "forms whose operand order the statement does not fix (assignment target vs right-hand side, op= on index targets) are compared as multisets", "a call rejected for its argument count is expected to evaluate no operand (what the code does today; the statement only forbids evaluating one twice)")})
+		Assumptions: assume("the reference interpreter (internal/prog/model.go) encodes the statement", "forms whose operand order the statement does not fix (assignment target vs right-hand side, op= on index targets) are compared as multisets; inside `x op= e` only the order the binary operator `x op e` fixes is asserted: the first evaluation of every operand of x precedes e", "a key operand of a map literal whose value can be no key of that map (a list, a map; for map[string]T anything but a string) fails as that operand: the operands after it, its own value first, are not evaluated", "a call rejected for its argument count is expected to evaluate no operand (what the code does today; the statement only forbids evaluating one twice)")})
 }
